@@ -340,7 +340,8 @@ SetCell(c, v) == [x \in DOMAIN cells \cup {c} |-> IF x = c THEN v ELSE cells[x]]
 \* a message object that is inserted (content / replace / attribute / interpolation / on-error fallback) is offered
 \* to the translation function with the translation settings in force at that place
 IsMsg(v) == v.t = "obj" /\ v.kind = "msg"
-EvLog(site, a) == [n \in 1..Len(a.ev) |-> [ev |-> "call", k |-> a.ev[n].k, r |-> a.ev[n].r, site |-> site, act |-> Act]]
+\* n: which call of this evaluation of the site's expression (the same call may be written several times in one expression)
+EvLog(site, a) == [n \in 1..Len(a.ev) |-> [ev |-> "call", k |-> a.ev[n].k, r |-> a.ev[n].r, site |-> site, act |-> Act, n |-> n]]
                   \o (IF site.s \in {"sub", "attr", "text", "oe"} /\ IsMsg(a.r)
                       THEN << [ev |-> "offer", d |-> mx.i18n.d, c |-> mx.i18n.c, t |-> mx.i18n.t, site |-> site, act |-> Act] >>
                       ELSE <<>>)
@@ -1050,7 +1051,7 @@ AttrAtMostOncePerName ==
 CallEvents == { n \in 1..Len(log) : log[n].ev = "call" }
 AtMostOncePerReach ==
   \A m, n \in CallEvents :
-     (m # n /\ log[m].k = log[n].k /\ log[m].site = log[n].site) => log[m].act # log[n].act
+     (m # n /\ log[m].k = log[n].k /\ log[m].site = log[n].site /\ log[m].n = log[n].n) => log[m].act # log[n].act
 
 \* C05: when an element is finished, the names it bound locally have the
 \* value they had when it was entered (or are undefined again), unless a
